@@ -129,23 +129,14 @@ func (o *ExpressionOptimizer) tryOptimizeBinaryOpExecute(e *BinaryOpExpr) (Expre
 	case Add, Sub, Mul, Div:
 		ret, err := e.Execute(NewKVP(nil, nil), nil)
 		if err == nil {
-			switch e.Left.(type) {
-			case *StringExpr:
-				return &StringExpr{Pos: leftPos, Data: ret.(string)}, true
-			case *NumberExpr:
-				switch cret := ret.(type) {
-				case int64:
-					return &NumberExpr{Pos: leftPos, Data: fmt.Sprintf("%v", cret), Int: cret}, true
-				case float64:
-					return &NumberExpr{Pos: leftPos, Data: fmt.Sprintf("%v", int64(cret)), Int: int64(cret)}, true
-				}
-			case *FloatExpr:
-				switch cret := ret.(type) {
-				case int64:
-					return &FloatExpr{Pos: leftPos, Data: fmt.Sprintf("%v", float64(cret)), Float: float64(cret)}, true
-				case float64:
-					return &FloatExpr{Pos: leftPos, Data: fmt.Sprintf("%v", cret), Float: cret}, true
-				}
+			// The literal takes the kind of the result, not of the left operand
+			switch cret := ret.(type) {
+			case string:
+				return &StringExpr{Pos: leftPos, Data: cret}, true
+			case int64:
+				return &NumberExpr{Pos: leftPos, Data: fmt.Sprintf("%v", cret), Int: cret}, true
+			case float64:
+				return &FloatExpr{Pos: leftPos, Data: fmt.Sprintf("%v", cret), Float: cret}, true
 			}
 		}
 	case And, Or:
